@@ -24,7 +24,22 @@ DLOG_SCOPE = ('BarnettSmartVTMF_dlog', 'GrothSKC', 'GrothVSSHE', 'HooghSchoenmak
 
 def run(ctx):
     prog = ctx.prog
-    nfun, n = invcheck.check_inventory(ctx, 'C05', 'R05i', only=lambda q: 'ProveKey' in q)
+    # refusal clauses (range and membership tests) of every receiver, from the frozen inventory
+    def refusal(k, fp):
+        kk = k.split(':')[-1]
+        body = fp[1:] if fp[0] == '@loop' else fp
+        if kk == 'if':
+            body = body[2]
+            kk = body[0].split(':')[-1]
+        if kk == 'range':
+            return True
+        if kk == 'call' and body[1].split('::')[-1] in ('CheckElement', 'TestMembership'):
+            return True
+        if kk == 'eq':
+            return any(s == 'int:1' for s, l in body[1]) and any(s == 'powm' for s, l in body[1])
+        return False
+    nfun, n = invcheck.check_inventory(ctx, 'C05', 'R05i', kinds=refusal)
+    ctx.floor('R05i', n, 120)
     sel = [(f, props) for f, props in verifiers.selected(prog) if 'C05' in props]
     nb = 0
     nd = 0
@@ -143,9 +158,27 @@ def r05d(ctx, f):
     bound, inv = bound_leaves(ctx, f)
     ranged = set()
     member = set()
+    # index range over which each wire array was read (per wire ordinal)
+    T0 = a.T
+    readcov = {}
+    for nid, ev in a.all_events('rcv'):
+        w = ev[2]
+        if T0.op(w) != 'wire':
+            continue
+        loops = [h for h, body in a.loop_nodes.items() if nid in body and a.cfg.loops[h].get('iv')]
+        if loops:
+            inner = min(loops, key=lambda h: len(a.loop_nodes[h]))
+            readcov['W%d' % T0.node(w)[1]] = inventory.coverage(a, (inner,), f)
     for fp in inv:
         k = invcheck.kind_of(fp)
         body = fp[1:] if fp[0] == '@loop' else fp
+        cov = [x for x in body if isinstance(x, tuple) and len(x) == 2 and x[0] == 'cov']
+        if cov:
+            body = tuple(x for x in body if x not in cov)
+            # a quantified sanitizer counts only if its loop covers the range the values were read over
+            ws = [root(x) for x in leaves_of_fp(body) if x.startswith('W')]
+            if any(w in readcov and readcov[w] != cov[0][1] for w in ws):
+                continue
         kk = k.split(':')[-1]
         if kk == 'if':
             # a sanitizer under the condition the read itself is under
